@@ -103,7 +103,7 @@ public:
         else { o.max_n = 9; o.max_m = 36; }
         if (approx && rng.chance(500)) { o.max_n = std::max(o.max_n, 8); }
         if (approx && rng.chance(400)) { o.max_n = std::max(o.max_n, (int) rng.range(10, 18)); o.max_m = std::max(o.max_m, 40); o.heavy_tail_pm = 1000; }
-        if (!approx && p != "C09") o.core_sat_pm = 30;
+        if (!approx && p != "C09") { o.core_sat_pm = 30; o.multi_pm = 40; }
         if (approx) o.hubs_pm = p == "C06" ? 300 : 150;
         if (p != "C09") { o.boundary_pm = prop == "C07" ? 25 : 8; o.boundary_max_n = 129; }
         gen::GGraph g = gen::gen_graph(rng, o);
